@@ -171,6 +171,55 @@ def parse_sites(man):
     return direct, lit
 
 
+def text_routes(man):
+    """number -> text happens only at run time, through Display:
+       compiler.rs interpolation: every `${}` part is `s.expression(); s.emit_byte(OpCode::FormatString ..);` unconditionally
+       (top level of the loop body, nothing removed from the chunk); vm.rs format_string_impl and core.rs string_from use format!("{}", v)"""
+    comp = toks_of("compiler.rs")
+    every = False
+    no_edit = False
+    i = find_seq(comp, ["fn", "interpolation"])
+    if i >= 0:
+        o, c = body_after(comp, i)
+        b = texts(comp, o, c)
+        no_edit = not any(t in b for t in ("truncate", "pop", "remove", "drain", "clear", "set_len", "split_off"))
+        l = find_seq(comp, ["loop"], o, c)
+        if l >= 0:
+            lo, lc = body_after(comp, l)
+            want = ["s", ".", "expression", "(", ")", ";", "s", ".", "emit_byte", "(", "OpCode", "::", "FormatString", "as", "u8", ")", ";"]
+            depth = 0
+            j = lo + 1
+            while j < lc:
+                t = comp[j].text
+                if depth == 0 and texts(comp, j, j + len(want)) == want:
+                    every = True
+                if t in ("{", "(", "["):
+                    depth += 1
+                elif t in ("}", ")", "]"):
+                    depth -= 1
+                j += 1
+            # exactly one call of expression() per loop round
+            every = every and len(find_all_seq(comp, ["s", ".", "expression", "(", ")"], lo, lc)) == 1
+    vm = toks_of("vm.rs")
+    fmt_display = False
+    i = find_seq(vm, ["fn", "format_string_impl"])
+    if i >= 0:
+        o, c = body_after(vm, i)
+        b = texts(vm, o, c)
+        fmt_display = contains(b, ["format!", "(", '"{}"', ",", "value", ")"])
+    core = toks_of("core.rs")
+    from_display = False
+    i = find_seq(core, ["fn", "string_from"])
+    if i >= 0:
+        o, c = body_after(core, i)
+        b = texts(core, o, c)
+        from_display = contains(b, ["format!", "(", '"{}"', ","]) and b.count("format!") == 1
+    d = {"interpolation_formats_every_part": every, "interpolation_never_edits_chunk": no_edit,
+         "format_string_uses_display": fmt_display, "string_from_uses_display": from_display}
+    man["c19_text_routes"] = d
+    return d
+
+
 def coq_bool(b):
     return "true" if b else "false"
 
@@ -200,7 +249,13 @@ def gen_numsrc(man):
     lines += ["",
               "(* core.rs string_to_num and compiler.rs number hand the text to str::parse::<f64> unchanged *)",
               "Definition to_num_parses_directly : bool := %s." % coq_bool(direct),
-              "Definition literal_parses_directly : bool := %s." % coq_bool(lit), ""]
+              "Definition literal_parses_directly : bool := %s." % coq_bool(lit), "",
+              "(* compiler.rs interpolation / vm.rs format_string_impl / core.rs string_from: text only through Display at run time *)"]
+    tr = text_routes(man)
+    for k in ("interpolation_formats_every_part", "interpolation_never_edits_chunk", "format_string_uses_display",
+              "string_from_uses_display"):
+        lines.append("Definition %s : bool := %s." % (k, coq_bool(tr[k])))
+    lines.append("")
     return "\n".join(lines) + "\n"
 
 
